@@ -189,3 +189,80 @@ impl<'a, P: ProcessRun> Run<'a, P> {
     fn run_failed(&self, err: RunFailed)
     { unimplemented!() }
 }
+
+// ---------------------------------------------------------------- std functions without a vstd specification (assumed: their std definitions)
+pub assume_specification<T: core::marker::Destruct> [Option::<T>::or] (a: Option<T>, b: Option<T>) -> (r: Option<T>)
+    ensures r == (if a is Some { a } else { b });
+pub assume_specification<T: core::marker::Destruct, U: core::marker::Destruct> [Option::<T>::and] (a: Option<T>, b: Option<U>) -> (r: Option<U>)
+    ensures r == (if a is Some { b } else { None::<U> });
+pub assume_specification<T: core::marker::Destruct> [Option::<T>::xor] (a: Option<T>, b: Option<T>) -> (r: Option<T>)
+    ensures r == (if a is Some && b is None { a } else if a is None && b is Some { b } else { None::<T> });
+pub assume_specification<T: core::marker::Destruct, P: FnOnce(&T) -> bool + core::marker::Destruct> [Option::<T>::filter] (a: Option<T>, p: P) -> (r: Option<T>)
+    requires a matches Some(v) ==> p.requires((&v,)),
+    ensures
+        a is None ==> r is None,
+        a matches Some(v) ==> (p.ensures((&v,), true) ==> r == a) && (p.ensures((&v,), false) ==> r is None) && (r is None || r == a);
+pub assume_specification<T, U: core::marker::Destruct, F: FnOnce(T) -> U + core::marker::Destruct> [Option::<T>::map_or] (a: Option<T>, d: U, f: F) -> (r: U)
+    requires a matches Some(v) ==> f.requires((v,)),
+    ensures a is None ==> r == d, a matches Some(v) ==> f.ensures((v,), r);
+pub assume_specification<T, E, U, F: FnOnce(T) -> Result<U, E> + core::marker::Destruct> [Result::<T, E>::and_then] (a: Result<T, E>, f: F) -> (r: Result<U, E>)
+    requires a matches Ok(v) ==> f.requires((v,)),
+    ensures a matches Err(e) ==> r == Err::<U, E>(e), a matches Ok(v) ==> f.ensures((v,), r);
+pub assume_specification<T: core::marker::Destruct, E: core::marker::Destruct> [Result::<T, E>::unwrap_or] (a: Result<T, E>, d: T) -> (r: T)
+    ensures r == (match a { Ok(v) => v, Err(_) => d });
+pub assume_specification<T, E, F: FnOnce(E) -> T + core::marker::Destruct> [Result::<T, E>::unwrap_or_else] (a: Result<T, E>, f: F) -> (r: T)
+    requires a matches Err(e) ==> f.requires((e,)),
+    ensures a matches Ok(v) ==> r == v, a matches Err(e) ==> f.ensures((e,), r);
+pub assume_specification<T: core::marker::Destruct, E: core::marker::Destruct, F: FnOnce(T) -> bool + core::marker::Destruct> [Result::<T, E>::is_ok_and] (a: Result<T, E>, f: F) -> (r: bool)
+    requires a matches Ok(v) ==> f.requires((v,)),
+    ensures a is Err ==> !r, a matches Ok(v) ==> f.ensures((v,), r);
+pub assume_specification<T: Ord + core::marker::Destruct> [std::cmp::max] (a: T, b: T) -> (r: T)
+    ensures T::obeys_cmp_spec() ==> r == (if a.cmp_spec(&b) == Ordering::Greater { a } else { b });
+
+pub assume_specification<T: Ord + core::marker::Destruct> [std::cmp::min] (a: T, b: T) -> (r: T)
+    ensures T::obeys_cmp_spec() ==> r == (if b.cmp_spec(&a) == Ordering::Less { b } else { a });
+
+// ---------------------------------------------------------------- further accessors used in engine.rs
+#[verifier::external_body] pub struct Validity { _opaque: () }
+#[verifier::external_body] pub struct KeyIdentifier { _opaque: () }
+impl TalInfo {
+    #[verifier::external_body]
+    pub fn name(&self) -> (r: &str) { unimplemented!() }
+}
+impl Cert {
+    #[verifier::external_body]
+    pub fn validity(&self) -> (r: Validity) { unimplemented!() }
+    #[verifier::external_body]
+    pub fn subject_key_identifier(&self) -> (r: KeyIdentifier) { unimplemented!() }
+    #[verifier::external_body]
+    pub fn ca_repository(&self) -> (r: Option<&RsyncUri>) { unimplemented!() }
+    #[verifier::external_body]
+    pub fn rpki_manifest(&self) -> (r: Option<&RsyncUri>) { unimplemented!() }
+    // validate_ca under an issuer: NOT a trust anchor validation (produces no valid_ta)
+    #[verifier::external_body]
+    pub fn validate_ca(self, issuer: &ResourceCert, strict: bool) -> (r: Result<ResourceCert, ValidationError>)
+        ensures r matches Ok(rc) ==> rc.cert_spec() == self,
+    { unimplemented!() }
+}
+impl ResourceCert {
+    #[verifier::external_body]
+    pub fn validity(&self) -> (r: Validity) { unimplemented!() }
+    #[verifier::external_body]
+    pub fn subject_public_key_info(&self) -> (r: &PublicKey) ensures *r == self.cert_spec().spki_spec() { unimplemented!() }
+    #[verifier::external_body]
+    pub fn as_cert(&self) -> (r: &Cert) ensures *r == self.cert_spec() { unimplemented!() }
+}
+impl Bytes {
+    #[verifier::external_body]
+    pub fn len(&self) -> (r: usize) { unimplemented!() }
+    #[verifier::external_body]
+    pub fn is_empty(&self) -> (r: bool) { unimplemented!() }
+}
+impl RunFailed {
+    #[verifier::external_body]
+    pub fn fatal() -> (r: RunFailed) { unimplemented!() }
+}
+impl<T> SegQueue<T> {
+    #[verifier::external_body]
+    pub fn push(&self, value: T) { unimplemented!() }
+}
